@@ -191,8 +191,22 @@ func TestC07(t *testing.T) {
 		}
 		o := ss[rapid.IntRange(0, len(ss)-1).Draw(rt, "obj")]
 		doc := altDocs[ci.Name]
+		oc := engine.Case{Kind: o.Kind, DER: o.DER, Base: o.Name}
+		if rapid.IntRange(0, 2).Draw(rt, "illtyped") == 0 {
+			// a section that cannot be applied: that lint reports fatal in the full run - the other
+			// lints' verdicts and flags must not notice, whether or not the selection contains it;
+			// any generated object of the lint's kind, so that other findings are present
+			doc, _ = engine.IllTypedSection(rt, ci)
+			if g := drawObject(rt, 2, true); g.Kind == o.Kind && rapid.Bool().Draw(rt, "anyobj") {
+				oc = g
+			}
+		}
 		var f engine.FilterSpec
-		switch rapid.IntRange(0, 3).Draw(rt, "fshape") {
+		switch rapid.IntRange(0, 5).Draw(rt, "fshape") {
+		case 4:
+			f = engine.FilterSpec{ExcludeNames: []string{ci.Name}}
+		case 5:
+			f = engine.FilterSpec{ExcludeSources: []string{lintSourceOf(ci.Name)}}
 		case 0:
 			f = engine.FilterSpec{IncludeNames: []string{ci.Name}}
 		case 1:
@@ -202,7 +216,8 @@ func TestC07(t *testing.T) {
 		default:
 			f = engine.DrawValidFilter(rt, globalNames())
 		}
-		c := c07Case{Case: engine.Case{Kind: o.Kind, DER: o.DER, Base: o.Name, Filters: []engine.FilterSpec{f}}, SameObject: rapid.IntRange(0, 2).Draw(rt, "same"), ParentConfig: &doc}
+		oc.Filters = []engine.FilterSpec{f}
+		c := c07Case{Case: oc, SameObject: rapid.IntRange(0, 2).Draw(rt, "same"), ParentConfig: &doc}
 		rec.Eval()
 		rec.Class("inherited_config")
 		if sig, msg := judgeC07(rec, c); msg != "" {
